@@ -118,6 +118,36 @@ def usage_sweep(text_ids):
                     unreached.append((name, err))
                 continue
             rows.append((name + ("" if variant else "/required-only"), sorted(set(sent)), sorted(subs)))
+    # the same entry points against a device that never answers: whatever a call writes while it waits, when it gives up
+    # (its own timeout, in virtual time) and afterwards is client-originated as well
+    import simnet
+    for name, fn in apisurface.entry_points():
+        net, client, conn, _stops = simnet.established(keepalive=100000.0)
+        sloop = net.loop
+        try:
+            n0 = len(net.written())
+            args, kwargs = apisurface.build_call(name, fn, all_optional=True)
+            try:
+                r = fn(client, *args, **kwargs)
+            except Exception:  # noqa: BLE001
+                continue
+            if not inspect.iscoroutine(r):
+                continue
+            o = simnet.spawn(sloop, r, "api")
+            sloop.run_idle()
+            for _ in range(16):
+                if o.done:
+                    break
+                sloop.advance(5.0)
+            if not o.done:
+                o.task.cancel()
+                sloop.run_idle()
+            o.cls()
+            sent = sorted({id2name.get(ty, f"<undeclared id {ty}>") for _, ty, _ in net.written()[n0:]})
+            if sent:
+                rows.append((name + "/silent-device", sent, []))
+        finally:
+            net.close()
     # internal handlers and replies
     client, conn, tr, loop = live.make_client()
     from aioesphomeapi import api_pb2
